@@ -38,3 +38,13 @@ package include
 // srcPath(r): the path of the file r.Primary was parsed from (a ghost attribute of a resolved journal: fixed when the
 // journal is created by the loader / the workspace, never stored in the struct).
 //@ specfun srcPath(r *ResolvedJournal) string
+
+// ---- C20: the transactions of an include tree ----
+// treeLen / treeAt: the transaction list of the tree with primary journal p, included journals files, include order
+// order (what AllTransactions computes: primary first, then the files in include order). The body is not verified
+// (concatenation of slices of structs); what is assumed is only that the list is a function of these three fields.
+//@ specfun treeLen(p *ast.Journal, files map[string]*ast.Journal, order []string) int
+//@ specfun treeAt(p *ast.Journal, files map[string]*ast.Journal, order []string, i int) ast.Transaction
+//@ trusted (*ResolvedJournal).AllTransactions
+//@   ensures len(result) == treeLen(r.Primary, r.Files, r.FileOrder) && (len(result) == 0 || fresh(result))
+//@   ensures forall i int :: {result[i]} 0 <= i && i < len(result) ==> result[i] == treeAt(r.Primary, r.Files, r.FileOrder, i)
